@@ -464,11 +464,20 @@ def strat_history(tier):
   @st.composite
   def s(draw):
     which = draw(st.sampled_from(['rsa', 'rsa', 'ec', 'sig', 'sig', 'mixed']))
+    sigs = draw(st.lists(sig, min_size=1, max_size=3)) if which in ('sig', 'mixed') else []
+    if sigs and draw(st.integers(0, 3)) == 0:
+      # one issuer with biased nonces and one healthy issuer on two different curves, in either order
+      a = draw(st.integers(0, 5))
+      b = (a + draw(st.integers(1, 5))) % 6
+      sigs = [[a, 'biased', draw(st.integers(0, 1000)), draw(st.integers(1, 3))],
+              [b, 'healthy', draw(st.integers(0, 1000)), draw(st.integers(1, 3))]]
+      if draw(st.booleans()):
+        sigs.reverse()
     return {
         'm': draw(material),
         'rsa': draw(st.lists(rsa, min_size=1, max_size=4)) if which in ('rsa', 'mixed') else [],
         'ec': draw(st.lists(ec, min_size=1, max_size=4)) if which in ('ec', 'mixed') else [],
-        'sig': draw(st.lists(sig, min_size=1, max_size=3)) if which in ('sig', 'mixed') else [],
+        'sig': sigs,
         'ops': ([['all', {'rsa': 0, 'ec': 1, 'sig': 2, 'mixed': draw(st.integers(0, 2))}[which]]]
                 if draw(st.booleans()) else []) + draw(st.lists(op, min_size=2, max_size=7)),
     }
